@@ -230,6 +230,28 @@ def final_obs(reg, objs):
         if u.base_value != bv or u.dimensions != dm or str(u.expr) != ex:
             kept = False
             detail = f"{ex}: {bv}->{u.base_value}"
+            continue
+        # ... and keeps it when it is USED: data labelled with the old Unit object (with and without registry=), products
+        # and conversions through it, carry the value the object had, not what its spelling means now
+        for how in ("quantity(registry=)", "array(registry=)", "quantity", "number*unit", "to(unit object)"):
+            try:
+                if how == "quantity(registry=)":
+                    got = U["uq"](3.0, u, registry=reg).units
+                elif how == "array(registry=)":
+                    got = U["unyt"].unyt_array([3.0, 6.0], u, registry=reg).units
+                elif how == "quantity":
+                    got = U["uq"](3.0, u).units
+                elif how == "number*unit":
+                    got = (3.0 * u).units
+                else:
+                    got = U["uq"](3.0, u).to(u).units
+                if got.base_value != bv or got.dimensions != dm:
+                    kept = False
+                    detail = f"{how} with the earlier unit {ex}: {bv}->{got.base_value}"
+            except Exception as e:  # noqa: BLE001
+                kept = False
+                detail = f"{how} with the earlier unit {ex} raised {type(e).__name__}"
+        _restore(reg, snap)
     return {"probes": probes, "rows": _rows(reg), "cache": [p in snap[1] for p in PROBES], "kept": kept, "keptdetail": detail, "arith": arith}
 
 
